@@ -298,18 +298,18 @@ Proof.
 Qed.
 
 (* ------------------------------------------------------------------ fit *)
-Definition weights_ok (w : weightsv) : Prop := w <> WUnknownStr /\ w <> WScalar.
+Definition weights_ok (w : weightsv) : Prop := w <> WUnknownStr /\ w <> WScalar /\ w <> WArrayNonFinite.
 Definition fixed_ok_for_lsq (fixed : list string) : Prop :=
   fixed = [] \/ (In "delta" fixed /\ ~ In "alpha" fixed /\ ~ In "beta" fixed).
 
-(* a known method that the family implements, with a known weights keyword where it is used *)
+(* a known method that the family implements, with a known weights keyword (or a finite array) where it is used *)
 Definition method_ok (fam : family) (fixed : list string) (m : methodv) (w : weightsv) : Prop :=
   m = MMle \/
   ((m = MLsq \/ m = MWlsq) /\ fam = ExpWeibull /\ weights_ok w /\ fixed_ok_for_lsq fixed).
 
-Lemma weights_known_iff w : weights_known w = true <-> weights_ok w.
-Proof. unfold weights_ok. destruct w; simpl; split; intros H; try discriminate; try (split; discriminate); auto;
-  destruct H as [A B]; congruence. Qed.
+Lemma weights_iff w : weights_known w = true /\ weights_finite w = true <-> weights_ok w.
+Proof. unfold weights_ok. destruct w; simpl; split; intros H; try (destruct H; discriminate);
+  try (repeat split; discriminate); try (destruct H as [A [B C]]; congruence); auto. Qed.
 
 Lemma lsq_fixed_ok_iff fixed : lsq_fixed_ok fixed = true <-> fixed_ok_for_lsq fixed.
 Proof.
@@ -317,23 +317,51 @@ Proof.
   rewrite orb_true_iff, !andb_true_iff, !negb_true_iff, is_nil_true, mem_In, !mem_nIn. tauto.
 Qed.
 
+Lemma dispatch_lsq_iff i fam fixed w :
+  match fam with
+  | ExpWeibull =>
+      if negb (weights_known w) then Err UnknownWeights i
+      else if negb (weights_finite w) then Err WeightsNonFinite i
+      else if lsq_fixed_ok fixed then Ok else Err LsqFixedNotImplemented i
+  | _ => Err LsqNotImplemented i
+  end = Ok <-> fam = ExpWeibull /\ weights_ok w /\ fixed_ok_for_lsq fixed.
+Proof.
+  destruct fam; try (split; [discriminate | intros [H _]; discriminate]).
+  destruct (weights_known w) eqn:K; simpl.
+  2:{ split; [discriminate|]. intros [_ [H _]]. apply weights_iff in H. destruct H; congruence. }
+  destruct (weights_finite w) eqn:F; simpl.
+  2:{ split; [discriminate|]. intros [_ [H _]]. apply weights_iff in H. destruct H; congruence. }
+  destruct (lsq_fixed_ok fixed) eqn:X.
+  - split; auto. intros _. split; [reflexivity|]. split; [apply weights_iff; auto | now apply lsq_fixed_ok_iff].
+  - split; [discriminate|]. intros [_ [_ H]]. apply lsq_fixed_ok_iff in H. congruence.
+Qed.
+
 Lemma dispatch_iff i fam fixed m w : dispatch i fam fixed m w = Ok <-> method_ok fam fixed m w.
 Proof.
-  unfold dispatch, method_ok.
-  destruct m; try (split; [intros; auto; discriminate | intros [H|[[H|H] _]]; discriminate]).
+  unfold dispatch, method_ok. destruct m.
   - split; auto.
-  - destruct fam; try (split; [discriminate | intros [H|[_ [H _]]]; discriminate]).
-    destruct (weights_known w) eqn:W; simpl.
-    + destruct (lsq_fixed_ok fixed) eqn:F.
-      * apply weights_known_iff in W. apply lsq_fixed_ok_iff in F. split; auto.
-      * split; [discriminate|]. intros [H|[_ [_ [_ H]]]]; [discriminate|]. apply lsq_fixed_ok_iff in H. congruence.
-    + split; [discriminate|]. intros [H|[_ [_ [H _]]]]; [discriminate|]. apply weights_known_iff in H. congruence.
-  - destruct fam; try (split; [discriminate | intros [H|[_ [H _]]]; discriminate]).
-    destruct (weights_known w) eqn:W; simpl.
-    + destruct (lsq_fixed_ok fixed) eqn:F.
-      * apply weights_known_iff in W. apply lsq_fixed_ok_iff in F. split; auto.
-      * split; [discriminate|]. intros [H|[_ [_ [_ H]]]]; [discriminate|]. apply lsq_fixed_ok_iff in H. congruence.
-    + split; [discriminate|]. intros [H|[_ [_ [H _]]]]; [discriminate|]. apply weights_known_iff in H. congruence.
+  - rewrite dispatch_lsq_iff. split; [intros H; right; split; auto | intros [H|[_ H]]; [discriminate|exact H]].
+  - rewrite dispatch_lsq_iff. split; [intros H; right; split; auto | intros [H|[_ H]]; [discriminate|exact H]].
+  - split; [discriminate | intros [H|[[H|H] _]]; discriminate].
+  - split; [discriminate | intros [H|[[H|H] _]]; discriminate].
+Qed.
+
+Lemma dispatch_pos i fam fixed m w t p : dispatch i fam fixed m w = Err t p -> p = i.
+Proof.
+  unfold dispatch. destruct m; try discriminate; try (intros H; now inversion H);
+  (destruct fam; try (intros H; now inversion H);
+   destruct (negb (weights_known w)); [intros H; now inversion H|];
+   destruct (negb (weights_finite w)); [intros H; now inversion H|];
+   destruct (lsq_fixed_ok fixed); [discriminate|intros H; now inversion H]).
+Qed.
+
+Lemma validate_slice_pos i s k t p : validate_slice i s k = Err t p -> p = i.
+Proof.
+  unfold validate_slice. destruct (s_kind s).
+  1,2: destruct (s_ref s); try (intros H; now inversion H);
+       (destruct (k <? eff_min_n_intervals s); [intros H; now inversion H|discriminate]).
+  destruct (k =? 0); [intros H; now inversion H|].
+  destruct (k <? eff_min_n_intervals s); [intros H; now inversion H|discriminate].
 Qed.
 
 Definition WellFormedFit (ds : list desc) (fi : fit_input) : Prop :=
@@ -389,16 +417,26 @@ Qed.
 Section PointsProofs.
   Variable T : Type.
   Variable finite : T -> bool.
-  Theorem validate_points_iff b (pts : list (list T)) :
+  Theorem validate_points_iff (b : evalpoint) (pts : list (list T)) :
     validate_points T finite b pts = Ok <-> forall row, In row pts -> forall x, In x row -> finite x = true.
   Proof.
     unfold validate_points, all_finite. destruct (forallb _ pts) eqn:F.
     - rewrite forallb_forall in F. split; auto. intros _ row Hr x Hx.
       specialize (F row Hr). rewrite forallb_forall in F. now apply F.
-    - split; [destruct b; discriminate|]. intros H.
+    - split; [discriminate|]. intros H.
       assert (forallb (forallb finite) pts = true).
       { apply forallb_forall. intros row Hr. apply forallb_forall. intros x Hx. now apply (H row). }
       congruence.
+  Qed.
+  Variable isnan : T -> bool.
+  Theorem validate_no_nan_iff (cells : list T) :
+    validate_no_nan T isnan cells = Ok <-> forall x, In x cells -> isnan x = false.
+  Proof.
+    unfold validate_no_nan. destruct (existsb isnan cells) eqn:E.
+    - split; [discriminate|]. intros H. apply existsb_exists in E. destruct E as [x [Hx E]].
+      rewrite (H x Hx) in E. discriminate.
+    - split; auto. intros _ x Hx. destruct (isnan x) eqn:N; auto.
+      assert (existsb isnan cells = true) by (apply existsb_exists; eauto). congruence.
   Qed.
 End PointsProofs.
 
@@ -536,3 +574,133 @@ Qed.
 Lemma with_hierarchy_check_rejects :
   validate_model [ok0; bad1; ok0] = Err BadHierarchy 1 /\ validate_model [ok0; self1] = Err BadHierarchy 1.
 Proof. split; reflexivity. Qed.
+
+(* ------------------------------------------------------------------ where the exception comes from *)
+(* per-dimension part of WellFormedFit *)
+Definition wf_fit_dim (ds : list desc) (fi : fit_input) (i : nat) (d : desc) : Prop :=
+  method_ok (d_family d) (d_fixed d) (f_method (eff_fitdesc fi i)) (f_weights (eff_fitdesc fi i)) /\
+  forall c, cond_index d = Some c -> wf_slice (slicer_at ds c) (nth c (fi_surviving fi) 0).
+
+Lemma fit_dim_pos ds fi i d t p : fit_dim ds fi i d = Err t p -> p = i.
+Proof.
+  unfold fit_dim. destruct (cond_index d).
+  - intros H. apply and_then_err in H. destruct H as [H|[_ H]].
+    + eapply validate_slice_pos; eauto.
+    + eapply dispatch_pos; eauto.
+  - apply dispatch_pos.
+Qed.
+
+(* the exception raised by fit names what is wrong: the length of fit_descriptions, an entry without method,
+   the data dimension, or a dimension whose method / weights / slicer is not acceptable *)
+Theorem fit_reported_position ds fi t p : validate_fit ds fi = Err t p ->
+  (t = FitLength /\ exists l, fi_descs fi = Some l /\ List.length l <> List.length ds) \/
+  (t = MissingMethod /\ exists l f, fi_descs fi = Some l /\ nth_error l p = Some (Some f) /\ f_has_method f = false) \/
+  (t = DataDimension /\ fi_data_cols fi <> List.length ds) \/
+  (exists d, nth_error ds p = Some d /\ ~ wf_fit_dim ds fi p d).
+Proof.
+  unfold validate_fit. intros H. apply and_then_err in H. destruct H as [H|[_ H]].
+  - unfold check_fit_descs in H. destruct (fi_descs fi) as [l|] eqn:L; [|discriminate].
+    destruct (List.length l =? List.length ds) eqn:E.
+    + right. left. apply first_err_err in H. destruct H as [j [x [Hj [Hf _]]]]. simpl in Hf.
+      destruct x as [f|]; [|discriminate]. simpl in Hf. destruct (f_has_method f) eqn:M; [discriminate|].
+      inversion Hf; subst. split; auto. exists l, f. auto.
+    + left. apply Nat.eqb_neq in E. inversion H; subst. split; auto. exists l. auto.
+  - apply and_then_err in H. destruct H as [H|[_ H]].
+    + right. right. left. destruct (fi_data_cols fi =? List.length ds) eqn:E; [discriminate|].
+      apply Nat.eqb_neq in E. inversion H; subst. auto.
+    + right. right. right. apply first_err_err in H. destruct H as [j [x [Hj [Hf _]]]]. simpl in Hf.
+      pose proof (fit_dim_pos _ _ _ _ _ _ Hf); subst p. exists x. split; auto.
+      intros W. apply fit_dim_iff in W. congruence.
+Qed.
+
+(* inputs of the five phases of a session *)
+Definition phase_index (ph : phase) : nat :=
+  match ph with PhSlicers => 0 | PhModel => 1 | PhFit => 2 | PhEval => 3 | PhContour => 4 end.
+
+Definition phase_input_ok (sc : scenario) (ph : phase) : Prop :=
+  match ph with
+  | PhSlicers => forall i d s, nth_error (sc_descs sc) i = Some d -> d_intervals d = Some s -> wf_slicer_init s
+  | PhModel => WellFormedModel (sc_descs sc)
+  | PhFit => forall fi, sc_fit sc = Some fi -> WellFormedFit (sc_descs sc) fi
+  | PhEval => forall b pts, sc_points sc = Some (b, pts) -> forall row, In row pts -> forall x, In x row -> is_finite x = true
+  | PhContour => forall c, sc_contour sc = Some c -> WellFormedContour (List.length (sc_descs sc)) c
+  end.
+
+Definition phase_result (sc : scenario) (ph : phase) : result :=
+  match ph with
+  | PhSlicers => validate_slicers (sc_descs sc)
+  | PhModel => validate_model (sc_descs sc)
+  | PhFit => opt_result (validate_fit (sc_descs sc)) (sc_fit sc)
+  | PhEval => opt_result (fun p => validate_points_f (fst p) (snd p)) (sc_points sc)
+  | PhContour => opt_result (validate_contour (List.length (sc_descs sc))) (sc_contour sc)
+  end.
+
+Lemma phase_result_iff sc ph : phase_result sc ph = Ok <-> phase_input_ok sc ph.
+Proof.
+  destruct ph; simpl.
+  - unfold validate_slicers. rewrite first_err_ok. split.
+    + intros S i d s Hd Hs. specialize (S i d Hd). simpl in S. rewrite Hs in S. now apply validate_slicer_init_iff in S.
+    + intros S j x Hj. simpl. destruct (d_intervals x) as [s|] eqn:I; auto. apply validate_slicer_init_iff. eapply S; eauto.
+  - apply validate_model_iff.
+  - destruct (sc_fit sc) as [fi|]; simpl.
+    + rewrite validate_fit_iff. split; [intros H fi' E; inversion E; subst; exact H | intros H; now apply H].
+    + split; auto. intros _ fi E. discriminate.
+  - destruct (sc_points sc) as [[b pts]|]; simpl.
+    + unfold validate_points_f. rewrite (validate_points_iff float is_finite b pts). split.
+      * intros H b' pts' E. inversion E; subst. exact H.
+      * intros H. now apply (H b pts).
+    + split; auto. intros _ b pts E. discriminate.
+  - destruct (sc_contour sc) as [c|]; simpl.
+    + rewrite validate_contour_iff. split; [intros H c' E; inversion E; subst; exact H | intros H; now apply H].
+    + split; auto. intros _ c E. discriminate.
+Qed.
+
+Lemma pipeline_phases sc :
+  pipeline sc = orelse (in_phase PhSlicers (phase_result sc PhSlicers))
+               (orelse (in_phase PhModel (phase_result sc PhModel))
+               (orelse (in_phase PhFit (phase_result sc PhFit))
+               (orelse (in_phase PhEval (phase_result sc PhEval))
+                       (in_phase PhContour (phase_result sc PhContour))))).
+Proof. reflexivity. Qed.
+
+(* WHERE: a session raises in the first phase whose input is ill-formed -- the inputs of all earlier
+   phases are well-formed, the input of the raising phase is not *)
+Opaque phase_result.
+Theorem pipeline_first_phase sc ph t p : pipeline sc = Some (ph, t, p) ->
+  phase_result sc ph = Err t p /\ ~ phase_input_ok sc ph /\
+  forall ph', phase_index ph' < phase_index ph -> phase_input_ok sc ph'.
+Proof.
+  rewrite pipeline_phases. intros H.
+  assert (K : forall q, phase_result sc q = Err t p -> ~ phase_input_ok sc q).
+  { intros q E W. apply phase_result_iff in W. congruence. }
+  destruct (phase_result sc PhSlicers) eqn:R0; simpl in H.
+  2:{ inversion H; subst. split; [exact R0|]. split; [now apply K|]. intros q L. simpl in L. lia. }
+  destruct (phase_result sc PhModel) eqn:R1; simpl in H.
+  2:{ inversion H; subst. split; [exact R1|]. split; [now apply K|]. intros q L.
+      destruct q; simpl in L; try lia. now apply phase_result_iff. }
+  destruct (phase_result sc PhFit) eqn:R2; simpl in H.
+  2:{ inversion H; subst. split; [exact R2|]. split; [now apply K|]. intros q L.
+      destruct q; simpl in L; try lia; now apply phase_result_iff. }
+  destruct (phase_result sc PhEval) eqn:R3; simpl in H.
+  2:{ inversion H; subst. split; [exact R3|]. split; [now apply K|]. intros q L.
+      destruct q; simpl in L; try lia; now apply phase_result_iff. }
+  destruct (phase_result sc PhContour) eqn:R4; simpl in H; [discriminate|].
+  inversion H; subst. split; [exact R4|]. split; [now apply K|]. intros q L.
+  destruct q; simpl in L; try lia; now apply phase_result_iff.
+Qed.
+Transparent phase_result.
+
+(* the classes named by the property (ValueError / TypeError / RuntimeError / NotImplementedError) cover every
+   rejection except four that surface as IndexError / AttributeError of the expression that trips first *)
+Theorem exception_classes t :
+  In (exc_of t) [ValueError; TypeError; RuntimeError; NotImplementedError] \/
+  In t [EmptyModel; LimitIndex; NoIntervals; MethodNotString].
+Proof. destruct t; simpl; tauto. Qed.
+
+(* ConditionalDistribution.__init__ called directly *)
+Theorem conditional_distribution_iff i d cv : d_conditional_on d = Some cv ->
+  (check_cond i d = Ok <->
+   (forall p, In p (d_dependent d) -> In p (d_params d)) /\
+   (forall p, In p (d_params d) ->
+      (In p (d_dependent d) /\ ~ In p (d_fixed d)) \/ (~ In p (d_dependent d) /\ In p (d_fixed d)))).
+Proof. intros H. rewrite check_cond_iff. unfold wf_cond. rewrite H. tauto. Qed.
